@@ -371,6 +371,11 @@ enum Job {
     Spawn,
     /// send 3 heap values (strings built at run time) into the root-owned channel, then receive them
     SendRecvStr,
+    /// send 3 heap values into the root-owned channel; they are received and compared after all
+    /// workers have finished
+    SendStr,
+    /// (internal) receive everything that is queued, on the root thread, after the workers are done
+    DrainStr,
 }
 
 fn job_name(j: Job) -> &'static str {
@@ -385,11 +390,13 @@ fn job_name(j: Job) -> &'static str {
         Job::Recv => "recv",
         Job::Spawn => "spawn",
         Job::SendRecvStr => "send-then-recv-strings",
+        Job::SendStr => "send-strings",
+        Job::DrainStr => "drain",
     }
 }
 
 fn job_parse(s: &str) -> Option<Job> {
-    [Job::ImportM, Job::ImportM2, Job::ReloadM, Job::Alloc, Job::AllocRoot, Job::CollectRoot, Job::Send, Job::Recv, Job::Spawn, Job::SendRecvStr]
+    [Job::ImportM, Job::ImportM2, Job::ReloadM, Job::Alloc, Job::AllocRoot, Job::CollectRoot, Job::Send, Job::Recv, Job::Spawn, Job::SendRecvStr, Job::SendStr]
         .iter()
         .cloned()
         .find(|j| job_name(*j) == s)
@@ -421,7 +428,7 @@ fn setup(n: usize, needs_channel: bool, strings: bool) -> World {
 }
 
 fn run_job(w: &World, me: usize, job: Job) -> String {
-    let t = &w.children[me];
+    let t = if job == Job::DrainStr { &w.root } else { &w.children[me] };
     let name = format!("main{}", me);
     let o = match job {
         Job::ImportM => vmkit::run(t, &name, "let m = import! m\nm.f m.x"),
@@ -441,8 +448,12 @@ fn run_job(w: &World, me: usize, job: Job) -> String {
             w.root.collect();
             return "collected".to_string();
         }
-        Job::Send | Job::Recv | Job::SendRecvStr => {
-            let src = if job == Job::SendRecvStr {
+        Job::Send | Job::Recv | Job::SendRecvStr | Job::SendStr | Job::DrainStr => {
+            let src = if job == Job::DrainStr {
+                "let { recv } = import! std.channel\nlet { Result } = import! std.types\nlet { flat_map, wrap } = import! std.io.prim\nlet v r =\n    match r with\n    | Ok x -> x\n    | Err _ -> \"<empty>\"\n\\c ->\n    do a = recv c.receiver\n    do b = recv c.receiver\n    do d = recv c.receiver\n    do e = recv c.receiver\n    wrap [v a, v b, v d, v e]"
+            } else if job == Job::SendStr {
+                "let { send } = import! std.channel\nlet string = import! std.string.prim\nlet { flat_map, wrap } = import! std.io.prim\n\\c ->\n    do _ = send c.sender (string.append \"first-\" \"message\")\n    do _ = send c.sender (string.append \"second-\" \"message\")\n    do _ = send c.sender (string.append \"third-\" \"message\")\n    wrap [\"sent\"]"
+            } else if job == Job::SendRecvStr {
                 "let { send, recv } = import! std.channel\nlet { Result } = import! std.types\nlet string = import! std.string.prim\nlet { flat_map, wrap } = import! std.io.prim\nlet v r =\n    match r with\n    | Ok x -> x\n    | Err _ -> \"<empty>\"\n\\c ->\n    do _ = send c.sender (string.append \"first-\" \"message\")\n    do _ = send c.sender (string.append \"second-\" \"message\")\n    do _ = send c.sender (string.append \"third-\" \"message\")\n    do a = recv c.receiver\n    do b = recv c.receiver\n    do d = recv c.receiver\n    wrap [v a, v b, v d]"
             } else if job == Job::Send {
                 "let { send } = import! std.channel\nlet { flat_map, wrap } = import! std.io.prim\n\\c ->\n    do _ = send c.sender 1\n    do _ = send c.sender 2\n    do _ = send c.sender 3\n    wrap [3]"
@@ -519,8 +530,8 @@ fn execute(jobs: &[Job], prefix: &[usize], shared_locks: &BTreeSet<LockId>) -> E
     });
     // set-up on this thread, naming the locks
     vmkit::take_ticks();
-    let needs_channel = jobs.iter().any(|j| matches!(j, Job::Send | Job::Recv | Job::SendRecvStr));
-    let strings = jobs.contains(&Job::SendRecvStr);
+    let needs_channel = jobs.iter().any(|j| matches!(j, Job::Send | Job::Recv | Job::SendRecvStr | Job::SendStr));
+    let strings = jobs.contains(&Job::SendRecvStr) || jobs.contains(&Job::SendStr);
     // the set-up runs on a thread of its own so that a set-up that never finishes (a lock taken
     // twice by the same thread) is a verdict and not a hang of the explorer
     let world = {
@@ -590,6 +601,7 @@ fn execute(jobs: &[Job], prefix: &[usize], shared_locks: &BTreeSet<LockId>) -> E
     // watchdog: stuck detection and overall time limit
     let start = Instant::now();
     let mut timed_out = false;
+    let mut last_retry = Instant::now();
     loop {
         std::thread::sleep(Duration::from_millis(5));
         let mut g = shared.inner.lock().unwrap();
@@ -621,6 +633,23 @@ fn execute(jobs: &[Job], prefix: &[usize], shared_locks: &BTreeSet<LockId>) -> E
             if !any_stuck {
                 g.schedule(None);
                 shared.cv.notify_all();
+            } else if g.status.iter().any(|s| matches!(s, WStatus::AtPoint { blocked: true, .. })) && last_retry.elapsed() > Duration::from_millis(200) {
+                // a worker that is blocked invisibly may have released locks before it blocked
+                // (it never arrived at another point, so nobody cleared the flags): let the
+                // workers that wait for a lock try again
+                last_retry = Instant::now();
+                for s in g.status.iter_mut() {
+                    if let WStatus::AtPoint { blocked, .. } = s {
+                        *blocked = false;
+                    }
+                }
+                let since = g.turn_since;
+                g.schedule(None);
+                // the 30 s deadline below counts from the moment nobody could run
+                if g.turn.is_none() {
+                    g.turn_since = since;
+                }
+                shared.cv.notify_all();
             } else if g.turn_since.elapsed() > Duration::from_secs(30) {
                 // workers blocked in something invisible for 30 s while nobody else can run
                 let desc: Vec<String> = g.status.iter().enumerate().map(|(i, s)| format!("w{}: {:?}", i, s)).collect();
@@ -651,6 +680,20 @@ fn execute(jobs: &[Job], prefix: &[usize], shared_locks: &BTreeSet<LockId>) -> E
         for h in handles {
             let _ = h.join();
         }
+        // what the workers left in the channel is received now, single threaded: every queued
+        // message must have survived the collections that ran while it was being sent
+        if jobs.contains(&Job::SendStr) {
+            let drained = run_job(&world, 0, Job::DrainStr);
+            let mut r = results.lock().unwrap();
+            for (i, j) in jobs.iter().enumerate() {
+                if *j == Job::SendStr {
+                    if let Some(x) = r[i].as_mut() {
+                        x.push_str(" | queue afterwards: ");
+                        x.push_str(&drained);
+                    }
+                }
+            }
+        }
         drop(world);
     }
     let g = shared.inner.lock().unwrap();
@@ -672,15 +715,20 @@ fn execute(jobs: &[Job], prefix: &[usize], shared_locks: &BTreeSet<LockId>) -> E
 /// result of worker `i` when it runs alone (the other workers do nothing)
 fn solo(jobs: &[Job], i: usize) -> String {
     vmkit::take_ticks();
-    let needs_channel = jobs.iter().any(|j| matches!(j, Job::Send | Job::Recv | Job::SendRecvStr));
+    let needs_channel = jobs.iter().any(|j| matches!(j, Job::Send | Job::Recv | Job::SendRecvStr | Job::SendStr));
     let (tx, rx) = std::sync::mpsc::channel();
     let (n, job) = (jobs.len(), jobs[i]);
-    let strings = jobs.contains(&Job::SendRecvStr);
+    let strings = jobs.contains(&Job::SendRecvStr) || jobs.contains(&Job::SendStr);
     std::thread::Builder::new()
         .stack_size(32 << 20)
         .spawn(move || {
             let world = setup(n, needs_channel, strings);
-            let _ = tx.send(run_job(&world, i, job));
+            let mut r = run_job(&world, i, job);
+            if job == Job::SendStr {
+                r.push_str(" | queue afterwards: ");
+                r.push_str(&run_job(&world, 0, Job::DrainStr));
+            }
+            let _ = tx.send(r);
         })
         .unwrap();
     rx.recv_timeout(Duration::from_secs(60)).unwrap_or_else(|_| "<the worker does not finish even when it runs alone>".to_string())
@@ -725,6 +773,9 @@ fn explore(jobs: &[Job], bound: usize, budget: Duration, max_exec: usize) -> Val
             if start.elapsed() > budget || executions >= max_exec {
                 capped = true;
                 break 'fix;
+            }
+            if std::env::var_os("VERIF_DEBUG").is_some() {
+                eprintln!("exec cost {} prefix {:?}", cost, prefix);
             }
             let ex = execute(jobs, &prefix, &shared);
             executions += 1;
@@ -887,7 +938,8 @@ fn scenarios(tier: &str) -> Vec<Vec<Job>> {
         vec![Job::Recv, Job::CollectRoot],
         vec![Job::Send, Job::AllocRoot],
         vec![Job::SendRecvStr, Job::CollectRoot],
-        vec![Job::SendRecvStr, Job::AllocRoot],
+        vec![Job::SendStr, Job::CollectRoot],
+        vec![Job::SendStr, Job::AllocRoot],
     ];
     if tier != "quick" {
         v.push(vec![Job::ImportM, Job::ImportM2, Job::CollectRoot]);
